@@ -210,8 +210,22 @@ void varintAdaptiveAnalyze(const uint64_t *values, size_t count,
     stats->isSorted = (sortedness == 1);
     stats->isReverseSorted = (sortedness == -1);
 
-    /* Count unique values (may be approximate for large arrays) */
-    stats->uniqueCount = varintAdaptiveCountUnique(values, count);
+    /* Count unique values (may be approximate for large arrays).
+     * In sorted data duplicates are adjacent, so count them exactly without
+     * allocating: the set-only BITMAP encoding is selected for sorted data
+     * based on this count, and the conservative estimate that
+     * varintAdaptiveCountUnique() returns when it cannot allocate (every
+     * value unique) would make it drop duplicates. */
+    if (stats->isSorted || stats->isReverseSorted) {
+        stats->uniqueCount = 1;
+        for (size_t i = 1; i < count; i++) {
+            if (values[i] != values[i - 1]) {
+                stats->uniqueCount++;
+            }
+        }
+    } else {
+        stats->uniqueCount = varintAdaptiveCountUnique(values, count);
+    }
     stats->uniqueRatio = (float)stats->uniqueCount / (float)count;
 
     /* Compute delta statistics */
